@@ -397,16 +397,19 @@ class SimplicialComplex:
         :param c: the other complex
         :returns: a renaming'''
         rename = dict()
+        taken = set()
         for k in range(c.maxOrder() + 1):
             for s in c.simplicesOfOrder(k):
                 if s in self:
                     # simplex exists in us, generate a new label
-                    # not present in us
+                    # not present in us, nor in c, nor already
+                    # given to another simplex
                     u = 1
                     while True:
                         q = f'{s}->{k}d{u}'
-                        if q not in self:
+                        if q not in self and q not in c and q not in taken:
                             rename[s] = q
+                            taken.add(q)
                             break
                         u += 1
 
